@@ -4,7 +4,7 @@ from props.cq_common import *  # noqa
 ID = "C01"; MODEL = "cq"; IMPL = "cq"
 COQ_PROP = "Properties/C01.v"; COQ_DIRS = ["Common", "CQueue"]
 COQ_MODULE = "CQueue.Model"; RUN_FN = "run"
-THEOREMS = ["C01_refines_spec", "C01_refines_spec_at", "C01_indistinguishable_by_any_client", "C01_invariant_reachable", "C01_scan_terminates", "C01_fetch_nondecreasing",
+THEOREMS = ["C01_refines_spec", "C01_refines_spec_at", "C01_indistinguishable_by_any_client", "C01_invariant_reachable", "C01_invariant_bits_reachable", "C01_scan_terminates", "C01_fetch_nondecreasing",
             "C01_exactly_once", "C01_cancelled_never_returned", "C01_len_formula", "C01_cancel_after_fetch_noop"]
 QUICK_N = 3000; THOROUGH_N = 300000
 CLAIM = dict(
